@@ -11,22 +11,25 @@ META = dict(
     title='Byte/bit/number codecs in utils are exact inverses and never wrap silently',
     design_ref='DESIGN.md section 7, C09',
     coq_target='Properties/C09.vo',
-    coq_extra=['Corr/UtilsCorr.vo'],
+    coq_extra=['Corr/UtilsCorr.vo', 'Corr/UtilsMjdCorr.vo'],
     technique='Coq proof (round-trip theorems for all widths/values over a Gallina model of '
               'utils.py; Flocq for binary64) + in-Coq differential correspondence with utils.py',
     level_text='Round-trip, refusal and checksum theorems proved in Coq for every value, width >= 1 '
                'and endianness over an executable model of the utils codecs that mirrors the '
-               'string manipulations of the code; the model is compared with the real functions on '
-               'exhaustive 1-byte domains, boundary values and seeded random inputs on every run. '
-               'Partial: single-precision conversion and the MJD fractional-day arithmetic are '
-               'covered by the implementation-level oracle only (no theorem).',
-    level_note='Trusted: Coq kernel + vm_compute, Flocq (binary64 bit layout; pulls the stdlib '
-               'real-number/classical axioms listed by Print Assumptions), CPython int/bytes/struct '
-               'semantics as mirrored by the model and checked by correspondence.',
-    partial='float32 narrowing/widening and mjd()/mjd_to_date() float arithmetic: oracle only',
+               'string manipulations of the code; binary64 via Flocq bit layout; binary32 via an integer model '
+               'of the C casts (round trip proved for every non-signalling 32-bit pattern, signalling NaNs '
+               'refuted = recorded finding, overflow refusal proved); MJD calendar part by a kernel sweep of '
+               'all 109573 days 1900..2199 on primitive floats. The models are compared with the real '
+               'functions (exhaustive 1-byte domains, boundary values, seeded random inputs, bit-exact floats) '
+               'on every run. Partial: the sub-day (microsecond) MJD arithmetic has no theorem — oracle only.',
+    level_note='Trusted: Coq kernel + vm_compute incl. primitive floats/ints (PrimFloat, Uint63) for the MJD '
+               'sweep; Flocq (binary64 bit layout; pulls the stdlib real-number/classical axioms listed by '
+               'Print Assumptions); CPython int/bytes/struct/datetime semantics as mirrored by the models and '
+               'checked by correspondence; repr()/float() text conversion in mjd_to_date is an input (oracle).',
+    partial='MJD fractional-day float arithmetic (within 1 us): implementation-level oracle only',
     rule='one case = one call of a utils function; non-trivial = distinct (function, arguments) '
          'whose result is not an error',
-    trusted=['Flocq 4 IEEE754.Bits (binary64 layout)'],
+    trusted=['Flocq 4 IEEE754.Bits (binary64 layout)', 'Coq primitive floats and 63-bit integers (MJD sweep)'],
     assumptions=['math.pow(2, k) is exact for k <= 1023 (width bound of the range checks)',
                  'latin-1 encode/decode is the identity on code points 0..255'],
 )
@@ -157,10 +160,90 @@ def gen_cases(ctx):
             out = None if x is None else struct.unpack('>Q', struct.pack('>d', x))[0]
             add('bytes_to_real64', 'CBytesToReal64 %s %s %s' % (zlist(b), blit(le), optlit(out)), (b, le),
                 out is not None)
+    # singles: doubles near every rounding/overflow/subnormal boundary of binary32, special values, random
+    def d2b(x):
+        return struct.unpack('>Q', struct.pack('>d', x))[0]
+
+    def b2d(p):
+        return struct.unpack('>d', struct.pack('>Q', p))[0]
+    p64 = list(pats)
+    f32max = 3.4028234663852886e38
+    for x in (f32max, 3.4028235677973366e38, 3.402823567797336e38, 3.4028235677973362e38, 3.5e38, 1e39,
+              2.0 ** -126, 2.0 ** -127, 2.0 ** -149, 2.0 ** -150, 2.0 ** -151, 1.5 * 2.0 ** -150,
+              2.0 ** -126 - 2.0 ** -150, 2.0 ** -126 - 2.0 ** -151, 1.0 + 2.0 ** -24, 1.0 + 2.0 ** -23,
+              1.0 + 2.0 ** -24 + 2.0 ** -40, 1.0 + 3 * 2.0 ** -24, 2.0 - 2.0 ** -24, 2.0 - 2.0 ** -25, 0.1, 436.56,
+              619.34000405413, 1e-45, 7e-46, 1.4e-45):
+        for sgn in (1.0, -1.0):
+            p = d2b(sgn * x)
+            p64 += [p, p + 1, p - 1]
+    for _ in range(150 * N):
+        # random float32 widened, then perturbed in the low 29 bits (exercise the rounding)
+        q = d2b(struct.unpack('>f', struct.pack('>I', rng.getrandbits(32)))[0])
+        p64 += [q, q ^ rng.getrandbits(29), q | (1 << 28), (q | (1 << 28)) + rng.choice([0, 1]), q ^ (1 << 29)]
+    for p in p64:
+        x = b2d(p)
+        le = rng.random() < 0.5
+        out = call(U.real_to_bytes, x, 1, le)
+        add('real_to_bytes32', 'CRealToBytes32 %s %s %s' % (zlit(p), blit(le), optlit(out, zlist)), (p, le),
+            out is not None)
+    p32s = [0, 1 << 31, 0x7F800000, 0xFF800000, 0x7FC00000, 0x7FC00001, 0xFFC12345, 1, 2, 3, 0x007FFFFF, 0x00800000,
+            0x7F7FFFFF, 0x7F800001, 0xFF800001, 0x7FA00000, 0x00400000, 0x80000001, 0x3F800000]
+    p32s += [rng.getrandbits(32) for _ in range(150 * N)] + [rng.getrandbits(23) for _ in range(40 * N)]
+    for p in p32s:
+        b = struct.pack('>I', p)
+        for le in (True, False):
+            bb = b[::-1] if le else b
+            x = call(U.bytes_to_real, bb, 1, le)
+            out = None if x is None else d2b(x)
+            add('bytes_to_real32', 'CBytesToReal32 %s %s %s' % (zlist(bb), blit(le), optlit(out)), (bb, le),
+                out is not None)
+    for b in (b'', b'abc', b'abcde'):
+        add('bytes_to_real32', 'CBytesToReal32 %s true None' % zlist(b), b, False)
+        assert call(U.bytes_to_real, b, 1, True) is None
+    return cases
+
+
+def gen_mjd_cases(ctx):
+    from simulators import utils as U
+    rng = ctx.rng
+    cases = []
+    d0 = datetime(1900, 1, 1)
+    span = (datetime(2200, 1, 1) - d0)
+    total_us = span.days * 86400 * 10 ** 6
+    dates = [d0, datetime(2199, 12, 31, 23, 59, 59, 999999), datetime(2000, 2, 29, 12), datetime(1900, 3, 1),
+             datetime(2100, 2, 28, 23, 59, 59, 999999), datetime(2100, 3, 1), datetime(2018, 1, 20, 10, 30, 45, 100000)]
+    dates += [d0 + timedelta(microseconds=rng.randrange(total_us)) for _ in range(ctx.n(600, 8000))]
+    dates += [d0 + timedelta(days=rng.randrange(span.days)) for _ in range(ctx.n(200, 3000))]
+    for d in dates:
+        x = U.mjd(d)
+        cases.append('CMjd %d %d %d %d %d %d %d %s%%float'
+                     % (d.year, d.month, d.day, d.hour, d.minute, d.second, d.microsecond, x.hex()))
+        ctx.count('mjd')
+        ctx.nontriv(('mjd', d))
+        # mjd_to_date on the same value; repr()/float() text conversions are computed here (oracle)
+        sd = repr(x)
+        if 'e' in sd or 'n' in sd:
+            continue
+        ip, fr = sd.split('.')
+        fr = fr + (12 - len(fr)) * '0'
+        frac = float('0.' + fr)
+        try:
+            back = U.mjd_to_date(x)
+        except Exception:
+            continue       # datetime() rejected the fields (e.g. hour 24): reported by the oracle
+        cases.append('CMjdToDate %d %s%%float %d %d %d %d %d %d %d'
+                     % (int(ip), frac.hex(), back.year, back.month, back.day, back.hour, back.minute,
+                        back.second, back.microsecond))
+        ctx.count('mjd_to_date')
+        ctx.nontriv(('mjd_to_date', x))
     return cases
 
 
 def correspondence(ctx):
+    mc = gen_mjd_cases(ctx)
+    ctx.sample(mc[0])
+    ctx.run_cases('mjd', 'From Coq Require Import PrimFloat.\nFrom DS Require Import Corr.UtilsMjdCorr.',
+                  'mcase', 'okm', mc, shard=ctx.n(400, 1500))
     cases = gen_cases(ctx)
     for c in cases[:3] + cases[len(cases) // 2:len(cases) // 2 + 2]:
         ctx.sample(c)
